@@ -28,43 +28,46 @@ theorem mem_maskCols {masks : Bool} {j w c : Nat} : c ∈ maskCols masks j w ↔
   · exact mem_colsDesc
 
 theorem mem_cellEvents {rows cols : List Nat} {kk st : Nat} {e : St} :
-    e ∈ cellEvents rows cols kk st ↔ e.r ∈ rows ∧ e.c ∈ cols ∧ e.kk = kk ∧ e.style = st := by
+    e ∈ cellEvents rows cols kk st ↔ e.r ∈ rows ∧ e.c ∈ cols ∧ e.kk = kk ∧ e.style = st ∧ e.k0 = 0 := by
   unfold cellEvents
   simp only [List.mem_flatMap, List.mem_map]
   constructor
-  · rintro ⟨r, hr, c, hc, rfl⟩; exact ⟨hr, hc, rfl, rfl⟩
-  · rintro ⟨hr, hc, hk, hs⟩
+  · rintro ⟨r, hr, c, hc, rfl⟩; exact ⟨hr, hc, rfl, rfl, rfl⟩
+  · rintro ⟨hr, hc, hk, hs, h0⟩
     refine ⟨e.r, hr, e.c, hc, ?_⟩
     cases e; simp_all
+
+/-- a complete matmul store event: all `K` terms from the first, in one of the three orders -/
+def Complete (K : Nat) (e : St) : Prop := e.k0 = 0 ∧ e.kk = K ∧ e.style ≤ 2
 
 variable {N K : Nat}
 
 theorem fills_block (rows cols : List Nat) (st : Nat) (hst : st ≤ 2) :
-    Fills N K [block K rows cols st] (· ∈ rows) (· ∈ cols) := by
+    Fills N (Complete K) [block K rows cols st] (· ∈ rows) (· ∈ cols) := by
   refine ⟨?_, ?_, ?_⟩
   · intro s hs; simp only [List.mem_singleton] at hs; subst hs
     exact ⟨by simp [block]⟩
   · intro s hs e he; simp only [List.mem_singleton] at hs; subst hs
-    obtain ⟨a, b, c, d⟩ := mem_cellEvents.1 he
-    exact ⟨a, b, c, by omega⟩
+    obtain ⟨a, b, c, d, e0⟩ := mem_cellEvents.1 he
+    exact ⟨a, b, e0, c, by omega⟩
   · intro r c hr hc
-    exact ⟨_, List.mem_singleton.2 rfl, ⟨r, c, K, st⟩, mem_cellEvents.2 ⟨hr, hc, rfl, rfl⟩, rfl, rfl⟩
+    exact ⟨_, List.mem_singleton.2 rfl, ⟨r, c, K, st, 0⟩, mem_cellEvents.2 ⟨hr, hc, rfl, rfl, rfl⟩, rfl, rfl⟩
 
 theorem fills_blockPartial (rows cols : List Nat) (st : Nat) (hst : st ≤ 2) :
-    Fills N K [blockPartial K rows cols st] (· ∈ rows) (· ∈ cols) := by
+    Fills N (Complete K) [blockPartial K rows cols st] (· ∈ rows) (· ∈ cols) := by
   refine ⟨?_, ?_, ?_⟩
   · intro s hs; simp only [List.mem_singleton] at hs; subst hs
     refine ⟨?_⟩
     intro e he
     simp only [blockPartial, List.mem_flatMap] at he
     obtain ⟨k, _, he⟩ := he
-    obtain ⟨a, b, _, _⟩ := mem_cellEvents.1 he
-    exact ⟨⟨e.r, e.c, K, st⟩, mem_cellEvents.2 ⟨a, b, rfl, rfl⟩, rfl⟩
+    obtain ⟨a, b, _, _, _⟩ := mem_cellEvents.1 he
+    exact ⟨⟨e.r, e.c, K, st, 0⟩, mem_cellEvents.2 ⟨a, b, rfl, rfl, rfl⟩, rfl⟩
   · intro s hs e he; simp only [List.mem_singleton] at hs; subst hs
-    obtain ⟨a, b, c, d⟩ := mem_cellEvents.1 he
-    exact ⟨a, b, c, by omega⟩
+    obtain ⟨a, b, c, d, e0⟩ := mem_cellEvents.1 he
+    exact ⟨a, b, e0, c, by omega⟩
   · intro r c hr hc
-    exact ⟨_, List.mem_singleton.2 rfl, ⟨r, c, K, st⟩, mem_cellEvents.2 ⟨hr, hc, rfl, rfl⟩, rfl, rfl⟩
+    exact ⟨_, List.mem_singleton.2 rfl, ⟨r, c, K, st, 0⟩, mem_cellEvents.2 ⟨hr, hc, rfl, rfl, rfl⟩, rfl, rfl⟩
 
 /-- `n` consecutive chunks of width `u` starting at `i` tile `[i, i+n*u)` -/
 theorem range_chunks {i n u r : Nat} (hu : 0 < u) :
@@ -82,9 +85,9 @@ theorem range_chunks {i n u r : Nat} (hu : 0 < u) :
     · have := Nat.lt_div_mul_add (a := r - i) hu; omega
 
 theorem fills_rowChunks (i u nR : Nat) (hu : 0 < u) (cols : List Nat) (st : Nat) (hst : st ≤ 2) :
-    Fills N K ((List.range nR).map fun ii => block K (rowsFrom (i + ii * u) u) cols st)
+    Fills N (Complete K) ((List.range nR).map fun ii => block K (rowsFrom (i + ii * u) u) cols st)
       (fun r => i ≤ r ∧ r < i + nR * u) (· ∈ cols) := by
-  have h := Fills.map_rows (N := N) (K := K) (List.range nR)
+  have h := Fills.map_rows (N := N) (P := Complete K) (List.range nR)
     (fun ii => block K (rowsFrom (i + ii * u) u) cols st)
     (fun ii r => r ∈ rowsFrom (i + ii * u) u) (· ∈ cols)
     (fun ii _ => fills_block _ _ st hst)
@@ -94,19 +97,19 @@ theorem fills_rowChunks (i u nR : Nat) (hu : 0 < u) (cols : List Nat) (st : Nat)
   exact range_chunks hu
 
 theorem fills_interior (V i j u nR nC : Nat) (hu : 0 < u) :
-    Fills N K (interior K V i j u nR nC) (fun r => i ≤ r ∧ r < i + nR * u)
+    Fills N (Complete K) (interior K V i j u nR nC) (fun r => i ≤ r ∧ r < i + nR * u)
       (fun c => j ≤ c ∧ c < j + nC * V) :=
   (fills_rowChunks i u nR hu (colsAsc j (nC * V)) 0 (by omega)).congr (fun _ => Iff.rfl)
     (fun _ => mem_colsAsc)
 
 theorem fills_interiorScalar (i j u nR : Nat) (hu : 0 < u) :
-    Fills N K (interiorScalar K i j u nR) (fun r => i ≤ r ∧ r < i + nR * u)
+    Fills N (Complete K) (interiorScalar K i j u nR) (fun r => i ≤ r ∧ r < i + nR * u)
       (fun c => j ≤ c ∧ c < j + 1) :=
   (fills_rowChunks i u nR hu [j] 1 (by omega)).congr (fun _ => Iff.rfl)
     (fun c => by simp only [List.mem_singleton]; omega)
 
 theorem fills_interiorMask (masks : Bool) (i j u nR w : Nat) (hu : 0 < u) :
-    Fills N K (interiorMask masks K i j u nR w) (fun r => i ≤ r ∧ r < i + nR * u)
+    Fills N (Complete K) (interiorMask masks K i j u nR w) (fun r => i ≤ r ∧ r < i + nR * u)
       (fun c => j ≤ c ∧ c < j + w) :=
   (fills_rowChunks i u nR hu (maskCols masks j w) 0 (by omega)).congr (fun _ => Iff.rfl)
     (fun _ => mem_maskCols)
@@ -128,44 +131,44 @@ theorem div_mul_chain {a b n : Nat} (ha : 0 < a) (hab : a ∣ b) (hb : 0 < b) :
     · rw [h1]; exact Nat.dvd_mul_left a _
 
 /-- three column groups `[0,N0) ∪ [N0,N1) ∪ [N1,N)` -/
-theorem fills_cols3 {A B C : List Seg} {R : Nat → Prop} {N0 N1 : Nat} (h01 : N0 ≤ N1) (h1N : N1 ≤ N)
-    (ha : Fills N K A R (fun c => 0 ≤ c ∧ c < N0)) (hb : Fills N K B R (fun c => N0 ≤ c ∧ c < N1))
-    (hc : Fills N K C R (fun c => N1 ≤ c ∧ c < N)) :
-    Fills N K (A ++ B ++ C) R (· < N) :=
+theorem fills_cols3 {P : St → Prop} {A B C : List Seg} {R : Nat → Prop} {N0 N1 : Nat} (h01 : N0 ≤ N1) (h1N : N1 ≤ N)
+    (ha : Fills N P A R (fun c => 0 ≤ c ∧ c < N0)) (hb : Fills N P B R (fun c => N0 ≤ c ∧ c < N1))
+    (hc : Fills N P C R (fun c => N1 ≤ c ∧ c < N)) :
+    Fills N P (A ++ B ++ C) R (· < N) :=
   ((ha.append_cols hb).append_cols hc).congr (fun _ => Iff.rfl) (fun c => by omega)
 
-theorem fills_rows3 {A B C : List Seg} {Cc : Nat → Prop} {M M0 M1 : Nat} (h01 : M0 ≤ M1) (h1M : M1 ≤ M)
-    (ha : Fills N K A (fun r => 0 ≤ r ∧ r < M0) Cc) (hb : Fills N K B (fun r => M0 ≤ r ∧ r < M1) Cc)
-    (hc : Fills N K C (fun r => M1 ≤ r ∧ r < M) Cc) :
-    Fills N K (A ++ B ++ C) (· < M) Cc :=
+theorem fills_rows3 {P : St → Prop} {A B C : List Seg} {Cc : Nat → Prop} {M M0 M1 : Nat} (h01 : M0 ≤ M1) (h1M : M1 ≤ M)
+    (ha : Fills N P A (fun r => 0 ≤ r ∧ r < M0) Cc) (hb : Fills N P B (fun r => M0 ≤ r ∧ r < M1) Cc)
+    (hc : Fills N P C (fun r => M1 ≤ r ∧ r < M) Cc) :
+    Fills N P (A ++ B ++ C) (· < M) Cc :=
   ((ha.append_rows hb).append_rows hc).congr (fun r => by omega) (fun _ => Iff.rfl)
 
 /-- a `for` loop of column chunks of width `s` from `lo` to `hi` -/
-theorem fills_colLoop {lo hi s : Nat} (hs : 0 < s) (hle : lo ≤ hi) (hd : s ∣ (hi - lo))
+theorem fills_colLoop {P : St → Prop} {lo hi s : Nat} (hs : 0 < s) (hle : lo ≤ hi) (hd : s ∣ (hi - lo))
     (f : Nat → List Seg) (R : Nat → Prop)
-    (h : ∀ j ∈ forRange lo hi s, Fills N K (f j) R (fun c => j ≤ c ∧ c < j + s)) :
-    Fills N K ((forRange lo hi s).flatMap f) R (fun c => lo ≤ c ∧ c < hi) :=
+    (h : ∀ j ∈ forRange lo hi s, Fills N P (f j) R (fun c => j ≤ c ∧ c < j + s)) :
+    Fills N P ((forRange lo hi s).flatMap f) R (fun c => lo ≤ c ∧ c < hi) :=
   (Fills.flatMap_cols _ f R _ h).congr (fun _ => Iff.rfl) (forRange_cover hs hle hd)
 
-theorem fills_colLoopMap {lo hi s : Nat} (hs : 0 < s) (hle : lo ≤ hi) (hd : s ∣ (hi - lo))
+theorem fills_colLoopMap {P : St → Prop} {lo hi s : Nat} (hs : 0 < s) (hle : lo ≤ hi) (hd : s ∣ (hi - lo))
     (f : Nat → Seg) (R : Nat → Prop)
-    (h : ∀ j ∈ forRange lo hi s, Fills N K [f j] R (fun c => j ≤ c ∧ c < j + s)) :
-    Fills N K ((forRange lo hi s).map f) R (fun c => lo ≤ c ∧ c < hi) :=
+    (h : ∀ j ∈ forRange lo hi s, Fills N P [f j] R (fun c => j ≤ c ∧ c < j + s)) :
+    Fills N P ((forRange lo hi s).map f) R (fun c => lo ≤ c ∧ c < hi) :=
   (Fills.map_cols _ f R _ h).congr (fun _ => Iff.rfl) (forRange_cover hs hle hd)
 
-theorem fills_rowLoop {lo hi s : Nat} (hs : 0 < s) (hle : lo ≤ hi) (hd : s ∣ (hi - lo))
+theorem fills_rowLoop {P : St → Prop} {lo hi s : Nat} (hs : 0 < s) (hle : lo ≤ hi) (hd : s ∣ (hi - lo))
     (f : Nat → List Seg) (C : Nat → Prop)
-    (h : ∀ i ∈ forRange lo hi s, Fills N K (f i) (fun r => i ≤ r ∧ r < i + s) C) :
-    Fills N K ((forRange lo hi s).flatMap f) (fun r => lo ≤ r ∧ r < hi) C :=
+    (h : ∀ i ∈ forRange lo hi s, Fills N P (f i) (fun r => i ≤ r ∧ r < i + s) C) :
+    Fills N P ((forRange lo hi s).flatMap f) (fun r => lo ≤ r ∧ r < hi) C :=
   (Fills.flatMap_rows _ f _ C h).congr (forRange_cover hs hle hd) (fun _ => Iff.rfl)
 
-theorem empty_fills_rows (R C : Nat → Prop) (h : ∀ r, ¬ R r) : Fills N K [] R C :=
+theorem empty_fills_rows {P : St → Prop} (R C : Nat → Prop) (h : ∀ r, ¬ R r) : Fills N P [] R C :=
   ⟨by simp, by simp, fun r _ hr _ => (h r hr).elim⟩
 
 /-! ### `_matmul_base` -/
 
 theorem fills_base (M V : Nat) (bl : Blocking) (hV : 0 < V) (hu : 0 < bl.u) (hnR : 0 < bl.nR)
-    (hnC : 0 < bl.nC) : Fills N K (base M K N V bl) (· < M) (· < N) := by
+    (hnC : 0 < bl.nC) : Fills N (Complete K) (base M K N V bl) (· < M) (· < N) := by
   obtain ⟨u, nR, nC⟩ := bl
   simp only at hu hnR hnC
   have hB : 0 < nR * u := Nat.mul_pos hnR hu
@@ -234,24 +237,24 @@ namespace Fastor.Matmul
 open Fastor
 variable {N K : Nat}
 
-theorem empty_fills_cols (R C : Nat → Prop) (h : ∀ c, ¬ C c) : Fills N K [] R C :=
+theorem empty_fills_cols {P : St → Prop} (R C : Nat → Prop) (h : ∀ c, ¬ C c) : Fills N P [] R C :=
   ⟨by simp, by simp, fun _ c _ hc => (h c hc).elim⟩
 
 theorem forRange_zero_stride (lo hi : Nat) : forRange lo hi 0 = [] := by
   simp [forRange, forCount]
 
 /-- the masked column remainder `for (; j < N; j += N-N1)` started at `N1` -/
-theorem fills_maskLoop (N1 : Nat) (hN1 : N1 ≤ N) (f : Nat → Seg) (R : Nat → Prop)
-    (h : ∀ j, Fills N K [f j] R (fun c => j ≤ c ∧ c < j + (N - N1))) :
-    Fills N K ((forRange N1 N (N - N1)).map f) R (fun c => N1 ≤ c ∧ c < N) := by
+theorem fills_maskLoop {P : St → Prop} (N1 : Nat) (hN1 : N1 ≤ N) (f : Nat → Seg) (R : Nat → Prop)
+    (h : ∀ j, Fills N P [f j] R (fun c => j ≤ c ∧ c < j + (N - N1))) :
+    Fills N P ((forRange N1 N (N - N1)).map f) R (fun c => N1 ≤ c ∧ c < N) := by
   rcases Nat.eq_zero_or_pos (N - N1) with h0 | hpos
   · rw [h0, forRange_zero_stride]
     exact empty_fills_cols _ _ (fun c => by omega)
   · exact fills_colLoopMap hpos hN1 (Nat.dvd_refl _) f R (fun j _ => h j)
 
-theorem fills_maskLoopFlat (N1 : Nat) (hN1 : N1 ≤ N) (f : Nat → List Seg) (R : Nat → Prop)
-    (h : ∀ j, Fills N K (f j) R (fun c => j ≤ c ∧ c < j + (N - N1))) :
-    Fills N K ((forRange N1 N (N - N1)).flatMap f) R (fun c => N1 ≤ c ∧ c < N) := by
+theorem fills_maskLoopFlat {P : St → Prop} (N1 : Nat) (hN1 : N1 ≤ N) (f : Nat → List Seg) (R : Nat → Prop)
+    (h : ∀ j, Fills N P (f j) R (fun c => j ≤ c ∧ c < j + (N - N1))) :
+    Fills N P ((forRange N1 N (N - N1)).flatMap f) R (fun c => N1 ≤ c ∧ c < N) := by
   rcases Nat.eq_zero_or_pos (N - N1) with h0 | hpos
   · rw [h0, forRange_zero_stride]
     exact empty_fills_cols _ _ (fun c => by omega)
@@ -261,7 +264,7 @@ theorem fills_maskLoopFlat (N1 : Nat) (hN1 : N1 ≤ N) (f : Nat → List Seg) (R
 
 theorem fills_baseMasked (masks : Bool) (M V : Nat) (bl : Blocking) (hV : 0 < V) (hu : 0 < bl.u)
     (hnR : 0 < bl.nR) (hnC : 0 < bl.nC) :
-    Fills N K (baseMasked masks M K N V bl) (· < M) (· < N) := by
+    Fills N (Complete K) (baseMasked masks M K N V bl) (· < M) (· < N) := by
   obtain ⟨u, nR, nC⟩ := bl
   simp only at hu hnR hnC
   have hB : 0 < nR * u := Nat.mul_pos hnR hu
@@ -349,37 +352,37 @@ theorem range_rows (M r : Nat) : (∃ i ∈ List.range M, r ∈ [i]) ↔ r < M :
   simp [List.mem_range]
 
 theorem fills_tiny (M V : Nat) (hV : 0 < V) (hrd : roundDown N V = N / V * V) :
-    Fills N K (tiny M K N V) (· < M) (· < N) := by
+    Fills N (Complete K) (tiny M K N V) (· < M) (· < N) := by
   unfold tiny
   simp only [hrd]
   have hN1 : N / V * V ≤ N := Nat.div_mul_le_self _ _
   have hk0 : forExit 0 (N / V * V) V = N / V * V :=
     forExit_of_dvd hV (Nat.zero_le _) (by simp [Nat.dvd_mul_left])
   rw [hk0]
-  have h := Fills.flatMap_rows (N := N) (K := K) (List.range M)
+  have h := Fills.flatMap_rows (N := N) (P := Complete K) (List.range M)
     (fun j => (forRange 0 (N / V * V) V).map (fun k => block K [j] (colsAsc k V) 0) ++
       (forRange (N / V * V) N 1).map (fun k => block K [j] [k] 1))
     (fun j r => r ∈ [j]) (· < N) ?_
   · exact h.congr (range_rows M) (fun _ => Iff.rfl)
   · intro j _
-    have ha : Fills N K ((forRange 0 (N / V * V) V).map (fun k => block K [j] (colsAsc k V) 0))
+    have ha : Fills N (Complete K) ((forRange 0 (N / V * V) V).map (fun k => block K [j] (colsAsc k V) 0))
         (fun r => r ∈ [j]) (fun c => 0 ≤ c ∧ c < N / V * V) :=
       fills_colLoopMap hV (Nat.zero_le _) (by simp [Nat.dvd_mul_left]) _ _
         (fun k _ => (fills_block [j] (colsAsc k V) 0 (by omega)).congr (fun _ => Iff.rfl) (fun _ => mem_colsAsc))
-    have hb : Fills N K ((forRange (N / V * V) N 1).map (fun k => block K [j] [k] 1))
+    have hb : Fills N (Complete K) ((forRange (N / V * V) N 1).map (fun k => block K [j] [k] 1))
         (fun r => r ∈ [j]) (fun c => N / V * V ≤ c ∧ c < N) :=
       fills_colLoopMap (by omega) hN1 (Nat.one_dvd _) _ _
         (fun k _ => (fills_block [j] [k] 1 (by omega)).congr (fun _ => Iff.rfl)
           (fun c => by simp only [List.mem_singleton]; omega))
     exact (ha.append_cols hb).congr (fun _ => Iff.rfl) (fun c => by omega)
 
-theorem fills_nonPrimitive (M : Nat) : Fills N K (nonPrimitive M K N) (· < M) (· < N) := by
+theorem fills_nonPrimitive (M : Nat) : Fills N (Complete K) (nonPrimitive M K N) (· < M) (· < N) := by
   unfold nonPrimitive
-  have h := Fills.flatMap_rows (N := N) (K := K) (List.range M)
+  have h := Fills.flatMap_rows (N := N) (P := Complete K) (List.range M)
     (fun i => (List.range N).map fun j => block K [i] [j] 1) (fun i r => r ∈ [i]) (· < N) ?_
   · exact h.congr (range_rows M) (fun _ => Iff.rfl)
   · intro i _
-    have := Fills.map_cols (N := N) (K := K) (List.range N) (fun j => block K [i] [j] 1)
+    have := Fills.map_cols (N := N) (P := Complete K) (List.range N) (fun j => block K [i] [j] 1)
       (fun r => r ∈ [i]) (fun j c => c ∈ [j]) (fun j _ => fills_block [i] [j] 1 (by omega))
     exact this.congr (fun _ => Iff.rfl) (range_rows N)
 
@@ -387,7 +390,7 @@ theorem fills_nonPrimitive (M : Nat) : Fills N K (nonPrimitive M K N) (· < M) (
 
 theorem fills_smallNRow (masks : Bool) (V r : Nat) (sp lg : Bool) (_hV : 0 < V)
     (hsp : sp = true → 1 ≤ r ∧ V < N) :
-    Fills N K [smallNRow masks K N V r sp lg] (· = r) (· < N) := by
+    Fills N (Complete K) [smallNRow masks K N V r sp lg] (· = r) (· < N) := by
   have hN1 : N / V * V ≤ N := Nat.div_mul_le_self _ _
   -- the columns listed by the final events are exactly [0,N)
   have hcols : ∀ c, c ∈ (colsAsc 0 (N / V * V) ++
@@ -414,22 +417,22 @@ theorem fills_smallNRow (masks : Bool) (V r : Nat) (sp lg : Bool) (_hV : 0 < V)
       simp only [List.mem_map, List.mem_range] at he
       obtain ⟨l, hl, rfl⟩ := he
       have hlN : l < N := by omega
-      refine ⟨⟨r, l, K, 2⟩, ?_, ?_⟩
+      refine ⟨⟨r, l, K, 2, 0⟩, ?_, ?_⟩
       · simp only [smallNRow]
-        exact mem_cellEvents.2 ⟨by simp, (hcols l).2 hlN, rfl, rfl⟩
+        exact mem_cellEvents.2 ⟨by simp, (hcols l).2 hlN, rfl, rfl, rfl⟩
       · simp only [St.pos]
         have : r = (r - 1) + 1 := by omega
         rw [this, Nat.add_mul]; simp; omega
     · simp at he
   · intro s hs e he; simp only [List.mem_singleton] at hs; subst hs
     simp only [smallNRow] at he
-    obtain ⟨a, b, c, d⟩ := mem_cellEvents.1 he
-    exact ⟨by simpa using a, (hcols _).1 b, c, by omega⟩
+    obtain ⟨a, b, c, d, e0⟩ := mem_cellEvents.1 he
+    exact ⟨by simpa using a, (hcols _).1 b, e0, c, by omega⟩
   · intro r' c hr hc
     subst hr
-    refine ⟨_, List.mem_singleton.2 rfl, ⟨r', c, K, 2⟩, ?_, rfl, rfl⟩
+    refine ⟨_, List.mem_singleton.2 rfl, ⟨r', c, K, 2, 0⟩, ?_, rfl, rfl⟩
     simp only [smallNRow]
-    exact mem_cellEvents.2 ⟨by simp, (hcols c).2 hc, rfl, rfl⟩
+    exact mem_cellEvents.2 ⟨by simp, (hcols c).2 hc, rfl, rfl, rfl⟩
 
 theorem smallNUnroll_pos (N V : Nat) : 0 < smallNUnroll N V := by
   unfold smallNUnroll
@@ -442,9 +445,9 @@ theorem smallNUnroll_pos (N V : Nat) : 0 < smallNUnroll N V := by
       · split <;> omega
 
 theorem fills_smallN (masks : Bool) (M V : Nat) (hV : 0 < V) :
-    Fills N K (smallN masks M K N V) (· < M) (· < N) := by
+    Fills N (Complete K) (smallN masks M K N V) (· < M) (· < N) := by
   unfold smallN
-  have h := Fills.map_rows (N := N) (K := K) (List.range M)
+  have h := Fills.map_rows (N := N) (P := Complete K) (List.range M)
     (fun r =>
       let U := smallNUnroll N V
       let M0 := M / U * U
@@ -471,14 +474,14 @@ theorem fills_smallN (masks : Bool) (M V : Nat) (hV : 0 < V) :
 /-! ### matrix-vector -/
 
 theorem fills_matvecGroup (K1 i n : Nat) (hK1 : K1 ≤ K) :
-    Fills 1 K [matvecGroup K K1 i n] (fun r => i ≤ r ∧ r < i + n) (· < 1) := by
+    Fills 1 (Complete K) [matvecGroup K K1 i n] (fun r => i ≤ r ∧ r < i + n) (· < 1) := by
   have hfin : ∀ (kk : Nat) (e : St), e ∈ (rowsFrom i n).map (fun r => ({ r := r, c := 0, kk := kk, style := 0 } : St)) ↔
-      (i ≤ e.r ∧ e.r < i + n) ∧ e.c = 0 ∧ e.kk = kk ∧ e.style = 0 := by
+      (i ≤ e.r ∧ e.r < i + n) ∧ e.c = 0 ∧ e.kk = kk ∧ e.style = 0 ∧ e.k0 = 0 := by
     intro kk e
     simp only [List.mem_map, mem_rowsFrom]
     constructor
-    · rintro ⟨r, hr, rfl⟩; exact ⟨hr, rfl, rfl, rfl⟩
-    · rintro ⟨hr, hc, hk, hs⟩; refine ⟨e.r, hr, ?_⟩; cases e; simp_all
+    · rintro ⟨r, hr, rfl⟩; exact ⟨hr, rfl, rfl, rfl, rfl⟩
+    · rintro ⟨hr, hc, hk, hs, h0⟩; refine ⟨e.r, hr, ?_⟩; cases e; simp_all
   unfold matvecGroup
   by_cases hk : K1 = K
   · subst hk
@@ -486,10 +489,10 @@ theorem fills_matvecGroup (K1 i n : Nat) (hK1 : K1 ≤ K) :
     refine ⟨?_, ?_, ?_⟩
     · intro s hs; simp only [List.mem_singleton] at hs; subst hs; exact ⟨by simp⟩
     · intro s hs e he; simp only [List.mem_singleton] at hs; subst hs
-      obtain ⟨a, b, c, d⟩ := (hfin _ e).1 he
-      exact ⟨a, by omega, c, by omega⟩
+      obtain ⟨a, b, c, d, e0⟩ := (hfin _ e).1 he
+      exact ⟨a, by omega, e0, c, by omega⟩
     · intro r c hr hc
-      exact ⟨_, List.mem_singleton.2 rfl, ⟨r, 0, K1, 0⟩, (hfin _ _).2 ⟨hr, rfl, rfl, rfl⟩, rfl, by simp; omega⟩
+      exact ⟨_, List.mem_singleton.2 rfl, ⟨r, 0, K1, 0, 0⟩, (hfin _ _).2 ⟨hr, rfl, rfl, rfl, rfl⟩, rfl, by simp; omega⟩
   · have hk' : (K1 == K) = false := by simp [hk]
     have hKK : K - 1 + 1 = K := by omega
     simp only [hk', Bool.false_eq_true, if_false]
@@ -499,33 +502,33 @@ theorem fills_matvecGroup (K1 i n : Nat) (hK1 : K1 ≤ K) :
       intro e he
       have hr : (i ≤ e.r ∧ e.r < i + n) ∧ e.c = 0 := by
         rcases List.mem_append.1 he with h | h
-        · obtain ⟨a, b, _, _⟩ := (hfin _ e).1 h; exact ⟨a, b⟩
+        · obtain ⟨a, b, _, _, _⟩ := (hfin _ e).1 h; exact ⟨a, b⟩
         · obtain ⟨j, _, h⟩ := List.mem_flatMap.1 h
-          obtain ⟨a, b, _, _⟩ := (hfin _ e).1 h; exact ⟨a, b⟩
-      refine ⟨⟨e.r, 0, K - 1 + 1, 0⟩, (hfin _ _).2 ⟨hr.1, rfl, rfl, rfl⟩, ?_⟩
+          obtain ⟨a, b, _, _, _⟩ := (hfin _ e).1 h; exact ⟨a, b⟩
+      refine ⟨⟨e.r, 0, K - 1 + 1, 0, 0⟩, (hfin _ _).2 ⟨hr.1, rfl, rfl, rfl, rfl⟩, ?_⟩
       simp [St.pos, hr.2]
     · intro s hs e he; simp only [List.mem_singleton] at hs; subst hs
-      obtain ⟨a, b, c, d⟩ := (hfin _ e).1 he
-      exact ⟨a, by omega, by omega, by omega⟩
+      obtain ⟨a, b, c, d, e0⟩ := (hfin _ e).1 he
+      exact ⟨a, by omega, e0, by omega, by omega⟩
     · intro r c hr hc
-      exact ⟨_, List.mem_singleton.2 rfl, ⟨r, 0, K - 1 + 1, 0⟩, (hfin _ _).2 ⟨hr, rfl, rfl, rfl⟩, rfl, by simp; omega⟩
+      exact ⟨_, List.mem_singleton.2 rfl, ⟨r, 0, K - 1 + 1, 0, 0⟩, (hfin _ _).2 ⟨hr, rfl, rfl, rfl, rfl⟩, rfl, by simp; omega⟩
 
 theorem fills_matvec (M V : Nat) :
-    Fills 1 K (matvec M K V) (· < M) (· < 1) := by
+    Fills 1 (Complete K) (matvec M K V) (· < M) (· < 1) := by
   unfold matvec
   split
-  · have h := Fills.map_rows (N := 1) (K := K) (List.range M) (fun i => block K [i] [0] 0)
+  · have h := Fills.map_rows (N := 1) (P := Complete K) (List.range M) (fun i => block K [i] [0] 0)
       (fun i r => r ∈ [i]) (· < 1) ?_
     · exact h.congr (range_rows M) (fun _ => Iff.rfl)
     · intro i _
       exact (fills_block [i] [0] 0 (by omega)).congr (fun _ => Iff.rfl) (fun c => by simp)
   · have hK1 : K / V * V ≤ K := Nat.div_mul_le_self _ _
     have hM0 : M / 8 * 8 ≤ M := Nat.div_mul_le_self _ _
-    have ha : Fills 1 K ((forRange 0 (M / 8 * 8) 8).map (fun i => matvecGroup K (K / V * V) i 8))
+    have ha : Fills 1 (Complete K) ((forRange 0 (M / 8 * 8) 8).map (fun i => matvecGroup K (K / V * V) i 8))
         (fun r => 0 ≤ r ∧ r < M / 8 * 8) (· < 1) :=
       (Fills.map_rows _ _ _ _ (fun i _ => fills_matvecGroup (K / V * V) i 8 hK1)).congr
         (forRange_cover (by omega) (Nat.zero_le _) (by simp [Nat.dvd_mul_left])) (fun _ => Iff.rfl)
-    have hb : Fills 1 K (if M - M / 8 * 8 > 0 then [matvecGroup K (K / V * V) (M / 8 * 8) (M - M / 8 * 8)] else [])
+    have hb : Fills 1 (Complete K) (if M - M / 8 * 8 > 0 then [matvecGroup K (K / V * V) (M / 8 * 8) (M - M / 8 * 8)] else [])
         (fun r => M / 8 * 8 ≤ r ∧ r < M) (· < 1) := by
       split
       · exact (fills_matvecGroup (K / V * V) (M / 8 * 8) (M - M / 8 * 8) hK1).congr
